@@ -186,3 +186,331 @@ class Gen:
 def scenario(seed, profile='mixed', nops=20, **kw):
     g = Gen(seed, profile, **kw)
     return g.generate(nops), g.stats
+
+
+# ------------------------------------------------------------------------------------------
+# property-specific generators: histories that satisfy the premises of a property, so that its
+# oracle may demand the conclusion. Each returns (scenario text, meta for the oracle).
+
+def _header(r, n, types, regs=None):
+    lines = ['PEERS %d' % n]
+    for p in range(n):
+        for t in (regs[p] if regs else types):
+            lines.append('OP %d reg %d' % (p, t))
+    return lines
+
+
+def _pace(r, lines, peers):
+    c = r.random()
+    if c < 0.4:
+        lines.append('ROUND %d' % r.randint(1, 3))
+    elif c < 0.8:
+        lines.append('FRAME %d %d' % (r.choice(peers), r.randint(1, 4)))
+    elif c < 0.9:
+        for p in r.sample(peers, len(peers)):
+            lines.append('FRAME %d %d' % (p, r.randint(1, 2)))
+
+
+def values_clean(seed, nops=16):
+    """C02: writes from arbitrary peers to several keys; two writes to one key by different peers
+    are separated by a drain; every type registered on every peer; no exclusion."""
+    r = random.Random(seed)
+    n = r.choice([2, 3, 3, 4])
+    types = sorted(r.sample([0, 1, 2, 3, 4, 5, 6, 7], r.randint(1, 3)))
+    lines = _header(r, n, types)
+    for p in range(n):
+        lines.append('OP %d setup' % p)
+    lines.append('ROUND %d' % r.randint(6, 9))
+    peers = list(range(n))
+    ents, val, last_writer, last_value = [], 10, {}, {}
+    for h in range(1, r.randint(2, 4) + 1):
+        p = r.choice(peers)
+        comps = ''
+        if r.random() < 0.5:
+            t = r.choice(types)
+            val += 1
+            v = val % 3 if t == 3 else val
+            comps = ' %d:%d' % (t, v)
+            last_writer[(h, t)] = p
+            last_value[(h, t)] = v
+        lines.append('OP %d spawn %d 1%s' % (p, h, comps))
+        ents.append(h)
+    lines.append('DRAIN 60')
+    for _ in range(nops):
+        h, t, p = r.choice(ents), r.choice(types), r.choice(peers)
+        if (h, t) in last_writer and last_writer[(h, t)] != p:
+            lines.append('DRAIN 60')
+        val += 1
+        v = val % 3 if t == 3 else val
+        lines.append('OP %d write %d %d %d' % (p, h, t, v))
+        last_writer[(h, t)] = p
+        last_value[(h, t)] = v
+        if r.random() < 0.75:
+            _pace(r, lines, peers)
+    lines.append('DRAIN 80')
+    return '\n'.join(lines) + '\n', dict(last_value={('%d' % h, t): str(v) for (h, t), v in last_value.items()}, types=types)
+
+
+def single_writer(seed, nops=14):
+    """C10: one peer alone writes one key (bursts, pauses); the others write other entities."""
+    r = random.Random(seed)
+    n = r.choice([2, 3, 3, 4])
+    t = r.choice([0, 1, 2, 4, 7])
+    lines = _header(r, n, [t])
+    for p in range(n):
+        lines.append('OP %d setup' % p)
+    lines.append('ROUND %d' % r.randint(6, 9))
+    peers = list(range(n))
+    w = r.choice(peers)
+    lines.append('OP %d spawn 1 1' % r.choice(peers))
+    others = []
+    for h in range(2, 2 + r.randint(0, 2)):
+        q = r.choice(peers)
+        lines.append('OP %d spawn %d 1' % (q, h))
+        others.append((h, q))
+    lines.append('DRAIN 60')
+    val = 100
+    for _ in range(nops):
+        c = r.random()
+        if c < 0.65:
+            for _ in range(r.choice([1, 1, 2, 3])):
+                val += 1
+                lines.append('OP %d write 1 %d %d' % (w, t, val))
+                if r.random() < 0.6:
+                    lines.append('FRAME %d %d' % (w, r.randint(1, 2)))
+        elif others:
+            h, q = r.choice(others)
+            val += 1
+            lines.append('OP %d write %d %d %d' % (q, h, t, val))
+        _pace(r, lines, peers)
+    lines.append('DRAIN 80')
+    return '\n'.join(lines) + '\n', dict(key=('1', t), writer=w)
+
+
+def parents_clean(seed, nops=12):
+    """C05: set-parent / re-parent operations by arbitrary peers; operations on the same child by
+    different peers are separated by a drain; no cycles."""
+    r = random.Random(seed)
+    n = r.choice([2, 3, 3, 4])
+    lines = _header(r, n, [0])
+    late = n - 1 if (n > 2 and r.random() < 0.4) else None
+    for p in range(n):
+        if p != late:
+            lines.append('OP %d setup' % p)
+    lines.append('ROUND %d' % r.randint(6, 9))
+    peers = [p for p in range(n) if p != late]
+    k = r.randint(3, 6)
+    same_frame = r.random() < 0.3
+    for h in range(1, k + 1):
+        lines.append('OP %d spawn %d 1' % (r.choice(peers), h))
+    parent = {}
+    if not same_frame:
+        lines.append('DRAIN 60')
+
+    def ancestors(x):
+        out = set()
+        while x in parent:
+            x = parent[x]
+            out.add(x)
+        return out
+    last = {}
+    for _ in range(nops):
+        c = r.randint(1, k)
+        cands = [q for q in range(1, k + 1) if q != c and c not in ancestors(q) and q != parent.get(c)]
+        if not cands:
+            continue
+        par = r.choice(cands)
+        p = r.choice(peers)
+        if c in last and last[c] != p or same_frame:
+            lines.append('DRAIN 60')
+            same_frame = False
+        lines.append('OP %d parent %d %d' % (p, c, par))
+        parent[c] = par
+        last[c] = p
+        if r.random() < 0.7:
+            _pace(r, lines, peers)
+    if late is not None:
+        lines.append('OP %d setup' % late)
+    lines.append('DRAIN 80')
+    return '\n'.join(lines) + '\n', dict(parent={str(c): str(p) for c, p in parent.items()})
+
+
+def optin(seed, nops=16):
+    """C04: per-peer registration subsets, per-peer switches, marked and unmarked entities, excluded
+    components, uuid and index assets, a late joiner."""
+    r = random.Random(seed)
+    n = r.choice([2, 3, 3])
+    all_types = [0, 1, 2, 7]
+    common = sorted(r.sample(all_types, r.randint(1, 3)))
+    never = [t for t in all_types if t not in common]
+    lines = ['PEERS %d' % n]
+    enabled = {}
+    for p in range(n):
+        for t in common:
+            lines.append('OP %d reg %d' % (p, t))
+        sw = tuple(r.randint(0, 1) for _ in range(3))
+        enabled[p] = sw
+        lines.append('OP %d switches %d %d %d' % ((p,) + sw))
+    late = n - 1 if n > 2 else None
+    for p in range(n):
+        if p != late:
+            lines.append('OP %d setup' % p)
+    lines.append('ROUND %d' % r.randint(6, 9))
+    peers = [p for p in range(n) if p != late]
+    marked, unmarked, excluded, val = [], [], set(), 10
+    h = 0
+    for _ in range(nops):
+        c = r.random()
+        p = r.choice(peers)
+        if c < 0.25:
+            h += 1
+            m = r.random() < 0.6
+            ts = r.sample(common + never, r.randint(0, 2))
+            comps = ''
+            for t in ts:
+                val += 1
+                comps += ' %d:%d' % (t, val)
+            lines.append('OP %d spawn %d %d%s' % (p, h, 1 if m else 0, comps))
+            (marked if m else unmarked).append((h, p))
+            if m and common and r.random() < 0.4:
+                t = r.choice(common)
+                if t not in ts:
+                    lines.append('OP %d excl %d %d 1' % (p, h, t))
+                    excluded.add((str(h), t))
+        elif c < 0.6 and (marked or unmarked):
+            hh, owner = r.choice(marked + unmarked)
+            t = r.choice(common + never)
+            val += 1
+            lines.append('OP %d write %d %d %d' % (owner, hh, t, val))
+        elif c < 0.8:
+            val += 1
+            lines.append('OP %d addasset %d %d %d' % (p, r.choice([0, 1, 2, 3]), 10 * p + r.randint(1, 3), val))
+        elif c < 0.9:
+            val += 1
+            lines.append('OP %d addasset_index %d %d' % (p, r.choice([0, 1, 2, 3]), val))
+        else:
+            lines.append('SLEEP 20')
+        if r.random() < 0.7:
+            _pace(r, lines, peers)
+    if late is not None:
+        lines.append('OP %d setup' % late)
+    lines.append('SLEEP 60')
+    lines.append('DRAIN 80')
+    return '\n'.join(lines) + '\n', dict(enabled=enabled, unmarked=[str(h) for h, _ in unmarked], never_types=never,
+                                         excluded=[(u, t) for (u, t) in excluded], common=common)
+
+
+def join(seed, nops=14):
+    """C03: a client joins at an arbitrary moment while the others keep writing."""
+    r = random.Random(seed)
+    n = r.choice([2, 3, 3, 4])
+    types = sorted(r.sample([0, 1, 2, 3, 7], r.randint(1, 3)))
+    lines = _header(r, n, types)
+    sw = (1, 1, 1) if r.random() < 0.6 else tuple(r.randint(0, 1) for _ in range(3))
+    for p in range(n):
+        lines.append('OP %d switches %d %d %d' % ((p,) + sw))
+    joiner = n - 1
+    for p in range(n - 1):
+        lines.append('OP %d setup' % p)
+    lines.append('ROUND %d' % r.randint(6, 9))
+    peers = list(range(n - 1))
+    ents, val, parent = [], 10, {}
+    when = r.randint(2, nops - 2)
+    busy = r.random() < 0.6
+    for i in range(nops):
+        if i == when:
+            if not busy:
+                lines.append('DRAIN 60')
+            lines.append('OP %d setup' % joiner)
+        p = r.choice(peers if len(peers) == 1 or r.random() < 0.8 else [0])
+        c = r.random()
+        if c < 0.3 or not ents:
+            h = len(ents) + 1
+            t = r.choice(types)
+            val += 1
+            lines.append('OP %d spawn %d 1 %d:%d' % (p, h, t, val % 3 if t == 3 else val))
+            ents.append((h, p))
+        elif c < 0.7:
+            h, owner = r.choice(ents)
+            t = r.choice(types)
+            val += 1
+            lines.append('OP %d write %d %d %d' % (owner, h, t, val % 3 if t == 3 else val))
+        elif c < 0.85 and len(ents) >= 2:
+            (c1, o1), (c2, _) = r.sample(ents, 2)
+            if c1 not in parent and parent.get(c2) != c1:
+                lines.append('OP %d parent %d %d' % (o1, c1, c2))
+                parent[c1] = c2
+        else:
+            val += 1
+            lines.append('OP %d addasset %d %d %d' % (p, r.choice([0, 1, 2, 3]), 10 * p + r.randint(1, 2), val))
+        if r.random() < 0.8:
+            _pace(r, lines, peers + ([joiner] if i >= when else []))
+    lines.append('SLEEP 60')
+    lines.append('DRAIN 80')
+    return '\n'.join(lines) + '\n', dict(joiner=joiner, enabled={p: sw for p in range(n)}, types=types)
+
+
+def session(seed):
+    """C15: start-hosting / connect / disconnect sequences at every handshake phase."""
+    r = random.Random(seed)
+    n = r.choice([2, 2, 3])
+    lines = _header(r, n, [0])
+    lines.append('OP 0 setup')
+    lines.append('FRAME 0 %d' % r.randint(1, 4))
+    for h in range(1, r.randint(1, 4)):
+        lines.append('OP 0 spawn %d 1 0:%d' % (h, h))
+    lines.append('FRAME 0 3')
+    removed = []
+    for p in range(1, n):
+        lines.append('OP %d setup' % p)
+        k = r.randint(0, 9)
+        for _ in range(k):
+            lines.append('FRAME %d' % r.choice([0, p, p]))
+        if r.random() < 0.5:
+            lines.append('OP %d removetransports' % p)
+            removed.append(p)
+            lines.append('FRAME %d %d' % (p, r.randint(4, 7)))
+            lines.append('FRAME 0 3')
+    if r.random() < 0.3:
+        lines.append('OP 0 removetransports')
+        lines.append('FRAME 0 5')
+    lines.append('ROUND 6')
+    return '\n'.join(lines) + '\n', dict(removed=removed)
+
+
+def skinned_clean(seed, nops=10):
+    """C16: SkinnedMesh written by the entity's owner only, joints = live synchronized entities
+    (any order, repeats, 0..3), local entity ids shifted differently per peer, live delivery in all
+    three directions (no joiner: the snapshot path is the known finding S13)."""
+    r = random.Random(seed)
+    n = r.choice([2, 3, 3])
+    lines = _header(r, n, [0, 8])
+    for p in range(n):
+        lines.append('OP %d setup' % p)
+    lines.append('ROUND %d' % r.randint(6, 9))
+    peers = list(range(n))
+    h = 0
+    for p in peers:                       # shift local id spaces differently
+        for _ in range(r.randint(0, 3)):
+            h += 1
+            lines.append('OP %d spawn %d 0' % (p, h))
+    ents = []
+    for _ in range(r.randint(3, 5)):
+        h += 1
+        p = r.choice(peers)
+        lines.append('OP %d spawn %d 1' % (p, h))
+        ents.append((h, p))
+    lines.append('DRAIN 60')
+    val = 10
+    for _ in range(nops):
+        e, owner = r.choice(ents)
+        js = [r.choice(ents)[0] for _ in range(r.randint(0, 3))]
+        ps = []
+        for _ in range(r.randint(0, 2)):
+            val += 1
+            ps.append(val)
+        lines.append('OP %d skin %d %s %s' % (owner, e, ','.join(map(str, js)) or '-', ','.join(map(str, ps)) or '-'))
+        if r.random() < 0.8:
+            _pace(r, lines, peers)
+    lines.append('DRAIN 80')
+    return '\n'.join(lines) + '\n', {}
